@@ -81,17 +81,24 @@ class C07(Prop):
             case['signals'] = sig_text(sig)
         case['nperturb'] = 8 if (ctx is None or ctx.tier == 'quick') else 32
         case['structs'] = kind == 'ct_on' and rng.random() < 0.25
+        if kind.startswith('dt') and not case.get('prelude') and case.get('useed') is None and rng.random() < 0.12:
+            case['ia'] = [rng.choice(['output_robustness', 'input_robustness']),
+                          dict((k, rng.choice(['input', 'output'])) for k in names)]
+            cs = sorted(set(g[2] for g in lang.walk(f) if g[0] == 'const'))[:3] or [1.0]
+            alpha = sorted(set(cs + [c + 1 for c in cs] + [c - 1 for c in cs]))
+            case['data'] = dict((k, [rng.choice(alpha) for _ in range(len(case['data'][names[0]]))]) for k in names)
         return case
 
     # -- one execution of the real monitor: list of (time, value) claims ------------------------------
     _structs = False
+    _iasd = None
 
     def run_real(self, kind, text, names, data=None, sig=None, prelude=None):
         if kind == 'dt_off':
-            res = drive.values(drive.dt_offline(text, names, data))
+            res = drive.values(drive.dt_offline(text, names, data, sd=self._iasd))
             return [(t, v) for t, v in enumerate(res)]
         if kind == 'dt_on':
-            res = drive.dt_online(text, names, data, prelude=prelude)
+            res = drive.dt_online(text, names, data, prelude=prelude, sd=self._iasd)
             return [(t, v) for t, v in enumerate(res)]
         if kind == 'ct_off':
             out = drive.ct_offline(text, names, sig)
@@ -120,6 +127,12 @@ class C07(Prop):
         dense = kind.startswith('ct')
         rng = random.Random(case.get('pseed', 0))
         v.info['kind:' + kind] = 1
+        self._iasd = None
+        if case.get('ia') and not dense:
+            # interface-aware *robustness* semantics: an overridden predicate is +-inf by its truth value, so the sign
+            # of every returned value still has to agree with the Boolean verdict (the magnitude part does not apply)
+            self._iasd = {'semantics': case['ia'][0], 'io': case['ia'][1]}
+            v.info['class:interface-aware'] = 1
         if not dense:
             data = case['data']
             names = sorted(data)
@@ -185,7 +198,7 @@ class C07(Prop):
                 usable.append((t, rho, s))
         v.nontrivial = bool(usable)
         v.info['claims'] = len(usable)
-        if not usable or not ref_bool.var_vs_const_only(f):
+        if not usable or not ref_bool.var_vs_const_only(f) or self._iasd:
             return v
         v.info['perturbed-cases'] = 1
         k = case.get('nperturb', 8)
